@@ -25,6 +25,8 @@ MODELS = [
      "minf = 1/(1 + exp(-(V + 40)/8))\ntm = 1 + 2*exp(-V*V/900)\n"
      "dm_dt = (minf - m)*tm\ndh_dt = 0.25*(1 - h) - h*exp(V/20)\ndV_dt = -(g*(V - e) + m*m*m*h*(V - 50))/c\n"),
     ("parameters(k=2.0)\nstates(p=1.0, q=0.0)\ndp_dt = q\ndq_dt = -k*p\n"),
+    # the linearisation of b vanishes only at the DEFAULT parameter values
+    ("parameters(k_on=0, k_off=0, g=0.3)\nstates(b=0.5, V=-80.0)\ndb_dt = k_on*(1 - b) - k_off*b\ndV_dt = -g*(V + 60)*(1 - b)\n"),
 ]
 
 
@@ -63,9 +65,16 @@ def work(task):
     if S is None:  # corpus: every second state stiff
         S = sorted(m.states)[::2]
     Sset = set(S)
-    for backend in o.get("backends", ["numpy"]):
-        view = checks.make_view(prog, ode, backend, schemes=["explicit_euler", "generalized_rush_larsen", "hybrid_rush_larsen"],
-                                stiff_states=list(S), delta=o.get("delta", 1e-8))
+    shared = list(S)   # the SAME list object is handed to every generation, as a caller would do
+    backends = list(o.get("backends", ["numpy"]))
+    if len(backends) == 1:
+        backends = backends + backends   # generate twice: the second generation must see the same stiff states
+    for gi, backend in enumerate(backends):
+        view = checks.make_view(prog, ode, backend, label=f"{backend}|get_code|gen{gi}",
+                                schemes=["explicit_euler", "generalized_rush_larsen", "hybrid_rush_larsen"],
+                                stiff_states=shared, delta=o.get("delta", 1e-8))
+        prog.fact(f"{backend}|gen{gi}|stiff-list-untouched", shared == list(S), "InputMutated",
+                  f"the caller's stiff_states list was modified by code generation: {shared} (was {list(S)})")
         if view is None:
             continue
         parts = {}
@@ -77,7 +86,7 @@ def work(task):
         dom = checks.model_domain(prog, m)
         for s, idx in checks.state_slots(view, m).items():
             other = "generalized_rush_larsen" if s in Sset else "explicit_euler"
-            label = f"{backend}|hybrid|{s}|vs-{other}"
+            label = f"{backend}|gen{gi}|hybrid|{s}|vs-{other}"
             if idx not in parts["hybrid_rush_larsen"] or idx not in parts[other]:
                 prog.fact(label, False, "SlotNotWritten", f"slot {idx} ({s}) missing")
                 continue
